@@ -109,6 +109,10 @@ func DeterministicKey(i int) []byte {
 	return h[:]
 }
 
+func accountFor(i int) (*account.Account, error) {
+	return account.NewAccountWithPrivateKey(DeterministicKey(i))
+}
+
 // NewNode creates a fresh node whose data lives under dir (created; the
 // caller removes it after Close).
 func NewNode(dir string, opts ...Options) (*Node, error) {
